@@ -323,6 +323,7 @@ func gen(t *rapid.T) Case {
 	r.Expand()
 	c := Case{Good: set.Texts(), Bad: badTexts(t, set)}
 	if rapid.IntRange(0, 4).Draw(t, "hostile-pool") == 0 {
+		hostile.MaxChain = 300
 		h := hostile.Gen(t)
 		c.Good, c.Hostile = nil, true
 		seen := map[string]bool{}
@@ -363,7 +364,7 @@ func gen(t *rapid.T) Case {
 		if withSub {
 			c.Good = append(c.Good, ymodel.Source{Name: "famsub.yang", Text: "submodule famsub {\n belongs-to fam { prefix f; }\n identity sid;\n typedef st { type identityref { base sid; } }\n leaf insub { type st; }\n}\n"})
 		}
-		c.Good = append(c.Good, ymodel.Source{Name: "famuser.yang", Text: "module famuser {\n namespace \"urn:famuser\";\n prefix u;\n import fam { prefix f; }\n leaf l { type f:t; }\n container k { uses f:g; }\n leaf r { type identityref { base f:id; } }\n typedef tid { type identityref { base f:id; } }\n leaf viatd { type tid; }\n typedef tt { type f:t; }\n leaf viatt { type tt; }\n identity mine { base f:id; }\n augment \"/f:c\" { leaf added { type string; } }\n}\n"})
+		c.Good = append(c.Good, ymodel.Source{Name: "famuser.yang", Text: "module famuser {\n namespace \"urn:famuser\";\n prefix u;\n import fam { prefix f; }\n leaf l { type f:t; }\n container k { uses f:g; }\n grouping lg { uses f:g; leaf viat { type f:t; } }\n container k2 { uses lg; }\n leaf r { type identityref { base f:id; } }\n typedef tid { type identityref { base f:id; } }\n leaf viatd { type tid; }\n typedef tt { type f:t; }\n leaf viatt { type tt; }\n identity mine { base f:id; }\n augment \"/f:c\" { leaf added { type string; } }\n}\n"})
 		if rapid.Bool().Draw(t, "dated-user") {
 			lo := 0
 			if undated {
@@ -371,6 +372,20 @@ func gen(t *rapid.T) Case {
 			}
 			d := dates[rapid.IntRange(lo, n-1).Draw(t, "dated-user-revision")]
 			c.Good = append(c.Good, ymodel.Source{Name: "famuser2.yang", Text: fmt.Sprintf("module famuser2 {\n namespace \"urn:famuser2\";\n prefix u;\n import fam { prefix f; revision-date %s; }\n leaf l { type f:t; }\n container k { uses f:g; }\n augment \"/f:c\" { leaf added2 { type string; } }\n}\n", d)})
+		}
+	}
+	if !c.Hostile && rapid.IntRange(0, 5).Draw(t, "namespace-twin") == 0 && len(set.Modules) > 0 {
+		// a module of another name, without revision, that claims the namespace of a module of the pool: what a
+		// namespace lookup answered before it arrived must not be remembered
+		var first *ymodel.Module
+		for _, m := range set.Modules {
+			if !m.IsSub {
+				first = m
+				break
+			}
+		}
+		if first != nil {
+			c.Good = append(c.Good, ymodel.Source{Name: "nstwin.yang", Text: fmt.Sprintf("module nstwin {\n namespace %s;\n prefix nt;\n container twinc { leaf x { type string; } }\n}\n", ymodel.Q(first.Namespace))})
 		}
 	}
 	order := schema.Order(t, len(c.Good))
